@@ -107,6 +107,21 @@ const c09HangInput = "tls.Unmarshal([]byte{1, 0}, &struct{ V []struct{} `tls:\"m
 func c09LoopsEnd(r *Run, c *c09fn, agg *c09Agg) int {
 	e, fn := c.e, c.fn
 	elem := 0
+	// function literals are not walked by the window engine: a loop inside one is not decided
+	var lits func(f *ssa.Function)
+	lits = func(f *ssa.Function) {
+		for _, af := range f.AnonFuncs {
+			for _, b := range af.Blocks {
+				for _, p := range b.Preds {
+					if b.Dominates(p) && len(b.Instrs) > 0 {
+						agg.note(c.name+":loop[in-function-literal]:ends", false, r.Where(b.Instrs[0]), "undecided: a loop inside a function literal of the decoder; the rule decides loops of the decoder's own body only")
+					}
+				}
+			}
+			lits(af)
+		}
+	}
+	lits(fn)
 	for _, B := range fn.Blocks {
 		isHead := false
 		for _, p := range B.Preds {
@@ -569,7 +584,13 @@ func c09ElementsOccupyBytes(r *Run, mf *c09fn, agg *c09Agg) int {
 		}
 		head := loopHeadOf(c)
 		blocks := loopBlocks(head)
-		if !blocks[c.Block()] || len(blocks) < 2 && !head.Dominates(head.Preds[len(head.Preds)-1]) {
+		isLoop := false
+		for _, p := range head.Preds {
+			if head.Dominates(p) {
+				isLoop = true
+			}
+		}
+		if !isLoop || !blocks[c.Block()] {
 			fail("undecided: the call that encodes v.Index(i) does not stand in a loop over the elements")
 			continue
 		}
